@@ -5,7 +5,9 @@
 From Coq Require Import List NArith Bool.
 From RaftLog Require Import Base.Bytes Model.Types Model.Cache Model.Core Model.Recover Model.Run Model.Sys.
 From RaftLog Require Import Spec.Durable.
-From RaftLog Require Proofs.PurgeFacts Proofs.PurgeDrain.
+From RaftLog Require Import Spec.Spec Spec.Hist.
+From RaftLog Require Proofs.Refine Proofs.CrashSteps Proofs.CrashPrefix Proofs.CrashFacts Proofs.PurgeLive.
+From RaftLog Require Proofs.PurgeFacts Proofs.PurgeDrain Proofs.RestartSys Proofs.DropReopen.
 Import ListNotations.
 
 (* once the dropped store's worker has finished, no event of that instance changes the directory *)
@@ -19,5 +21,68 @@ Theorem C14_drain_terminates : forall cfg z,
   exists es z' vis, forallb ev_fault_free es = true /\ zrun z es = Some (z', vis) /\ worker_idle2 z'.
 Proof. exact PurgeDrain.C14_drain_terminates. Qed.
 
+(* ---- "opening it again succeeds and shows the acknowledged state": for a fault-free run
+   with a well-formed Raft-legal history, once the store is dropped and its worker has
+   finished, the directory opens under ANY configuration with tail truncation enabled and
+   shows exactly the reference log after the first k journalled records, where k is at
+   least the number of records journalled before the LAST flush call (acknowledged or not,
+   with or without callback; this dominates the acknowledged count) and at most the number
+   journalled at all (records never flushed may or may not be there). *)
+Theorem C14_reopen_after_drop : forall cfg cfg' z,
+  zreach_ff cfg z -> CrashSteps.hist_wf z -> PurgeLive.hist_legal z ->
+  z_dropped z = true -> worker_idle2 z -> c_truncate cfg' = true ->
+  exists y' k sp, open_dir cfg' (z_disk z) = OpenOk y' /\
+    (DropReopen.flushed_recs z <= k)%nat /\ (k <= CrashFacts.issued z)%nat /\
+    nth_error (CrashPrefix.ref_states (PurgeLive.hist z)) k = Some sp /\
+    m_rs (k_sm (y_core y')) = spec_state sp /\
+    map Refine.f_log (m_log (k_sm (y_core y'))) = map Refine.g_ent (sp_entries sp).
+Proof. exact DropReopen.C14_reopen_after_drop. Qed.
+
+(* if the last call before the drop was a flush (nothing left in the caller's buffer) the
+   directory holds only whole records and opens with truncation DISABLED as well *)
+Theorem C14_reopen_after_drop_no_truncate : forall cfg cfg' z,
+  zreach_ff cfg z -> CrashSteps.hist_wf z -> PurgeLive.hist_legal z ->
+  z_dropped z = true -> worker_idle2 z -> k_pending (z_core z) = [] ->
+  exists y' k sp, open_dir cfg' (z_disk z) = OpenOk y' /\
+    (DropReopen.flushed_recs z <= k)%nat /\ (k <= CrashFacts.issued z)%nat /\
+    nth_error (CrashPrefix.ref_states (PurgeLive.hist z)) k = Some sp /\
+    m_rs (k_sm (y_core y')) = spec_state sp /\
+    map Refine.f_log (m_log (k_sm (y_core y'))) = map Refine.g_ent (sp_entries sp).
+Proof. exact DropReopen.C14_reopen_after_drop_no_truncate. Qed.
+
+Theorem C14_flushed_dominates_acked : forall cfg z,
+  zreach cfg z -> (CrashFacts.acked z <= DropReopen.flushed_recs z)%nat.
+Proof. exact DropReopen.acked_le_flushed_recs. Qed.
+
+(* the hypotheses are met: rotation, flush with callback, an unflushed commit, drop while
+   requests are queued, two worker batches *)
+Theorem C14_reopen_nonvacuous :
+  zreach_ff DropReopen.dr_cfg DropReopen.dr_z /\ CrashSteps.hist_wf DropReopen.dr_z /\
+  PurgeLive.hist_legal DropReopen.dr_z /\
+  z_dropped DropReopen.dr_z = true /\ worker_idle2 DropReopen.dr_z /\ c_truncate DropReopen.dr_cfg = true /\
+  DropReopen.flushed_recs DropReopen.dr_z = 4%nat /\ CrashFacts.acked DropReopen.dr_z = 4%nat /\
+  CrashFacts.issued DropReopen.dr_z = 5%nat /\
+  z_acks DropReopen.dr_z = [(0%N, true)] /\
+  map (fun f => (f_id f, length (f_data f))) (z_disk DropReopen.dr_z) = [(0%N, 114%nat); (114%N, 62%nat)] /\
+  length (k_pending (z_core DropReopen.dr_z)) = 28%nat.
+Proof. exact DropReopen.C14_reopen_nonvacuous. Qed.
+
+(* ---- "the new instance keeps working": the reopened instance (any directory that opens)
+   satisfies the same contracts: a dropped instance whose worker is idle is quiescent, the
+   drain always terminates; with C04_*_from and C08_*_from its flushes are acknowledged
+   exactly once and its purges remove their files *)
+Theorem C14_quiescent_from : forall cfg d z,
+  RestartSys.zreach_from cfg d z -> z_dropped z = true -> worker_idle2 z -> quiesced z.
+Proof. exact RestartSys.C14_quiescent_from. Qed.
+
+Theorem C14_drain_terminates_from : forall cfg d z,
+  RestartSys.zreach_from cfg d z -> z_dropped z = true -> z_todo z = [] -> w_alive (z_w z) = true ->
+  exists es z' vis, forallb ev_fault_free es = true /\ zrun z es = Some (z', vis) /\ worker_idle2 z'.
+Proof. exact RestartSys.C14_drain_terminates_from. Qed.
+
 Print Assumptions C14_quiescent.
 Print Assumptions C14_drain_terminates.
+Print Assumptions C14_reopen_after_drop.
+Print Assumptions C14_reopen_after_drop_no_truncate.
+Print Assumptions C14_quiescent_from.
+Print Assumptions C14_drain_terminates_from.
